@@ -28,7 +28,12 @@ def table : List (String × List String × List String) := [
   ("special_cel.cel", ["10"], ["<"]),
   ("field_BH_triangularmesh.mask_inside_enclosing_box", ["1e-12"], ["<", ">", "<", ">", "<", ">"]),
   ("field_BH_triangularmesh.mask_inside_trimesh", ["12.0012345", "5.9923456", "6.9932109"], []),
+  ("field_BH_triangularmesh.lines_end_in_trimesh", ["1e-16", "1e-07", "1e-12"], [">", "<", "<", "!=", "<", "<", "<", "==", "==", "!="]),
+  ("field_BH_triangularmesh.is_facet_inwards", ["1e-05"], []),
   ("field_BH_triangularmesh.BHJM_magnet_trimesh", [], ["!=", "==", "==", "==", "!=", "==", "==", "==", "==", "=="]),
+  ("field_BH_cylinder.magnet_cylinder_axial_Bfield", [], []),
+  ("field_BH_cylinder.magnet_cylinder_diametral_Hfield", ["0.05", "8", "4", "4", "4", "4", "64", "4", "9", "25", "4", "5", "4", "8", "4", "4", "15", "64", "12", "8", "5", "12", "8", "5", "4", "4", "1e+16", "4", "4", "4"], ["<", "=="]),
+  ("field_BH_cylinder.BHJM_magnet_cylinder", ["1e-15", "1e-15"], ["<=", "<=", "==", "==", "!=", "!=", "!=", "==", "==", "==", "==", "=="]),
   ("utility.cart_to_cyl_coordinates", [], []),
   ("utility.cyl_field_to_cart", [], [])]
 
